@@ -159,6 +159,7 @@ static int jerasure_rs_cauchy_reconstruct(void *desc, char **data, char **parity
         decoding_matrix = (int *) alloc_zeroed_buffer(sizeof(int *) * k * k * w * w);
         erased = jerasure_desc->jerasure_erasures_to_erased(k, m, missing_idxs);
         if (NULL == decoding_matrix || NULL == dm_ids || NULL == erased) {
+            ret = -ENOMEM;
             goto out;
         }
 
